@@ -77,8 +77,12 @@ func runC07(c *fw.Case) (o fw.Outcome) {
 	bearer := uint8((c.Idx + round) % 32)
 	dir := uint8(r.Intn(2))
 	msg := rbytes(r, n)
-	if r.Intn(4) == 0 {
+	switch r.Intn(8) {
+	case 0, 1:
 		msg = make([]byte, n) // all-zero plaintext: the ciphertext is the keystream itself
+	case 2, 3, 4:
+		msg = blockyBytes(r, n) // zero / all-ones words between other words, at every alignment
+		o.Tag("blocky-message")
 	}
 	o.Input = kv("len", n, "key", hexs(key[:]), "count", fmt.Sprintf("%#x", count), "bearer", bearer, "dir", dir, "msg", hexs(clip(msg, 64)))
 	o.Digest = fw.Hash(key[:], msg, []byte{bearer, dir, byte(count), byte(count >> 8), byte(count >> 16), byte(count >> 24)})
